@@ -648,6 +648,16 @@ def run_enumerated(chk, trees, quick: bool):
             arr = np.array(vals[: 2 * (len(vals) // 2)]).reshape(2, -1)
             cs.add(lang, st, "stmts", L.ArrayDecl(tab, sizes=arr.shape, values=arr, const=True), "ArrayDecl(special floats)", fm)
             cs.add(lang, st, "stmts", L.VariableDecl(L.Symbol("v", L.DataType.REAL), L.LiteralFloat(vals[14])), "VariableDecl", fm)
+            # every assignment operator lnodes defines, as a statement followed by another statement (the terminator
+            # of the first is what separates them) and as the body of a loop
+            sv, sw, sy = (L.Symbol(n_, L.DataType.SCALAR) for n_ in ("v", "w", "y"))
+            ii = L.Symbol("i", L.DataType.INT)
+            for cls in (L.Assign, L.AssignAdd, L.AssignSub, L.AssignMul, L.AssignDiv):
+                two = L.StatementList([L.Statement(cls(sv, L.Add(x, sy))), L.Statement(L.Assign(sw, sy))])
+                cs.add(lang, st, "stmts", two, f"{cls.__name__};Assign", fm)
+                loop = L.ForRange(ii, 0, 3, body=[L.Statement(cls(L.ArrayAccess(L.Symbol("A", L.DataType.SCALAR), [ii]), L.Mul(x, sy))),
+                                                  L.Statement(L.AssignAdd(sw, x))])
+                cs.add(lang, st, "stmts", loop, f"ForRange[{cls.__name__};AssignAdd]", fm)
             if st.startswith("complex"):
                 for v in vals[:24]:
                     for z in (complex(v, -v), complex(0.0, v), complex(-v, 0.5), complex(-0.0, v)):
